@@ -28,12 +28,14 @@ int opus_packet_parse_impl(const unsigned char *data, opus_int32 len, int self_d
    /* the parser writes count sizes (and frame pointers) through the pointers it is handed: the whole written range must be
       writable -- this is where "at most 48 frames" matters -- and an arbitrary entry verif_KP satisfies the C06 clauses */
    __CPROVER_assert(__CPROVER_w_ok(size, ret * sizeof(opus_int16)), "parser writes count sizes inside the array it was handed");
-   __CPROVER_havoc_slice(size, ret * sizeof(opus_int16));
-   if (frames) { __CPROVER_assert(__CPROVER_w_ok(frames, ret * sizeof(*frames)), "parser writes count frame pointers inside the array it was handed");
-                 __CPROVER_havoc_slice(frames, ret * sizeof(*frames)); }
-   total = nondet_int(); __CPROVER_assume(0 <= total && total <= 1275 * ret);
-   __CPROVER_assume(verif_KP < 0 || verif_KP >= ret || (0 <= size[verif_KP] && size[verif_KP] <= 1275));
-   if (padding) { *padding = data + off + total; *padding_len = nondet_int(); __CPROVER_assume(0 <= *padding_len && off + total + *padding_len <= len); }
+   if (frames) __CPROVER_assert(__CPROVER_w_ok(frames, ret * sizeof(*frames)), "parser writes count frame pointers inside the array it was handed");
+   /* only the entry the harness will look at (verif_KP, arbitrary) is materialised; cat itself never reads the sizes */
+   if (0 <= verif_KP && verif_KP < ret) {
+      size[verif_KP] = nondet_short(); __CPROVER_assume(0 <= size[verif_KP] && size[verif_KP] <= 1275);
+      if (frames) frames[verif_KP] = data + off;
+   }
+   total = nondet_int(); __CPROVER_assume(0 <= total && total <= 1275 * ret && off + total <= len);
+   if (padding) { *padding = data + off + total; *padding_len = nondet_int(); __CPROVER_assume(0 <= *padding_len && *padding_len <= len - off - total); }
    if (out_toc) *out_toc = data[0];
    g_count = ret;
    return ret;
@@ -41,8 +43,8 @@ int opus_packet_parse_impl(const unsigned char *data, opus_int32 len, int self_d
 #undef  OPUS_VERIF_LOOP_rp_cat_fill
 #define OPUS_VERIF_LOOP_rp_cat_fill \
   __CPROVER_assigns(curr_nb_frames, __CPROVER_object_whole(rp)) \
-  __CPROVER_loop_invariant(1 <= curr_nb_frames && curr_nb_frames <= 48 && 0 <= rp->nb_frames && rp->nb_frames + curr_nb_frames <= 48) \
-  __CPROVER_loop_invariant(rp->nb_frames + curr_nb_frames == __CPROVER_loop_entry(rp->nb_frames) + __CPROVER_loop_entry(curr_nb_frames)) \
+  __CPROVER_loop_invariant(1 <= curr_nb_frames && curr_nb_frames <= 48 && 0 <= rp->nb_frames && rp->nb_frames <= 48 && rp->nb_frames + curr_nb_frames <= 48) \
+  __CPROVER_loop_invariant(rp->nb_frames >= __CPROVER_loop_entry(rp->nb_frames) && (long long)rp->nb_frames + curr_nb_frames == (long long)__CPROVER_loop_entry(rp->nb_frames) + __CPROVER_loop_entry(curr_nb_frames)) \
   __CPROVER_loop_invariant(rp->toc == __CPROVER_loop_entry(rp->toc) && rp->framesize == __CPROVER_loop_entry(rp->framesize)) \
   __CPROVER_loop_invariant(rp->len[verif_K2] == __CPROVER_loop_entry(rp->len[verif_K2]) && rp->frames[verif_K2] == __CPROVER_loop_entry(rp->frames[verif_K2])) \
   __CPROVER_loop_invariant(verif_K2 > __CPROVER_loop_entry(rp->nb_frames) || (rp->padding_len[verif_K2] == __CPROVER_loop_entry(rp->padding_len[verif_K2]) && rp->paddings[verif_K2] == __CPROVER_loop_entry(rp->paddings[verif_K2]))) \
